@@ -15,6 +15,8 @@ pub mod util;
 mod ops_frag;
 #[path = "ops_codec.rs"]
 mod ops_codec;
+#[path = "ops_milu.rs"]
+mod ops_milu;
 
 thread_local! {
     static LAST_PANIC: RefCell<String> = RefCell::new(String::new());
@@ -28,6 +30,8 @@ pub async fn run_line(line: &str) -> String {
         "frag_seq" => ops_frag::frag_seq(&args),
         "frag_make" => ops_frag::frag_make(&args),
         "frag_rt" => ops_frag::frag_roundtrip(&args),
+        "milu_parse" => ops_milu::milu_parse(&args),
+        "milu_eval" => ops_milu::milu_eval(&args),
         "socks_req_read" => ops_codec::socks_req_read(&args).await,
         "socks_req_write" => ops_codec::socks_req_write(&args).await,
         "socks_resp_read" => ops_codec::socks_resp_read(&args).await,
